@@ -9,7 +9,9 @@ out, names = [], []
 def h(name, unwind, body):
     if name in names:
         return
-    out.append("harness! { fn %s() unwind(%d) { %s } }" % (name, unwind, body))
+    # core::fmt::write is stubbed out (formatting is never the subject; specs' log::warn! /
+    # panic messages otherwise drag the whole formatting machinery into every query)
+    out.append("harness! { #[cfg_attr(kani, kani::stub(core::fmt::write, vsupport::fmt_write_stub))] fn %s() unwind(%d) { %s } }" % (name, unwind, body))
     names.append(name)
 
 U = 7
@@ -88,7 +90,7 @@ for p in PB:
     maintain("t", True, p)
     delete("t", True, 1, p)
 
-# ---- C09: lazy actions (kind: 0 insert A, 1 remove A, 2 insert B, 3 observer, 4 nested, 5 lazy builder, 6 lazy builder + deferred delete)
+# ---- C09: lazy actions (kind: 0 insert A, 1 remove A, 2 insert B, 3 observer, 4 nested, 5 lazy builder, 6 lazy builder + deferred delete, 7 lazy builder + immediate delete)
 def lazy(tier, sr, acts, p):
     a = list(acts) + [(255, 0)] * (3 - len(acts))
     nm = "".join("%d%d" % (k, t) for (k, t) in acts)
@@ -105,17 +107,21 @@ QL = [
     ([(2, 2), (3, 0)], (1, 3, 0)),       # insert into the setup-created storage
     ([(3, 0), (4, 0), (0, 1)], (2, 0, 4)),
     ([(0, 0), (1, 1), (2, 2)], (0, 0, 0)),
-    ([(6, 0), (3, 0)], (0, 1, 2)),       # lazily built entity (reusing index 1) deleted before maintain
-    ([(3, 0), (6, 0)], (1, 1, 0)),
 ]
+# kinds 6 / 7 (a lazily built entity that is DEAD when its queued insertion runs: deferred or
+# immediate delete before maintain) cost 2.4 M symex steps and > 12 GB each, whatever the pattern
+# and even as the only action: manual runs only. Seeded change C09_b needs exactly this trigger
+# and is therefore MISSED (see DESIGN.md).
+lazy("x", False, [(6, 0)], (0, 1, 2))
+lazy("x", False, [(7, 0)], (0, 0, 0))
 for acts, p in QL:
     lazy("q", False, acts, p)
 lazy("q", True, [(2, 1), (3, 0)], (0, 0, 3))
 PL = [(0, 0, 0), (4, 0, 2), (0, 3, 1), (2, 2, 3), (1, 4, 0), (3, 0, 2)]
-for k0 in range(7):
-    for k1 in range(7):
+for k0 in range(6):
+    for k1 in range(6):
         for t1 in (0, 1):
-            p = PL[(k0 * 7 + k1 + t1) % len(PL)]
+            p = PL[(k0 * 6 + k1 + t1) % len(PL)]
             lazy("t", False, [(k0, 1), (k1, t1)], p)
 src = "// GENERATED by tools/gen_variants.py -- do not edit\n" + "\n".join(out) + "\n\npub const REGISTRY: &[(&str, fn())] = &[\n"
 for n in names:
